@@ -240,6 +240,10 @@ func (b *tableParagraphTransformer) parseRow(segment text.Segment,
 		row.AppendChild(row, node)
 		pos = closure + 1
 	}
+	if isHeader {
+		// the header row must match the delimiter row in the number of cells
+		return row
+	}
 	for ; i < len(alignments); i++ {
 		row.AppendChild(row, ast.NewTableCell())
 	}
